@@ -136,6 +136,17 @@ def shape_records(tag, j, g, rng):
                         [inv(x) for x in va], [bool(va.isdisjoint(vb))], [len(va)]]
             r, res = _do(f)
             add("view_algebra", res, r, st=st, k=k, s=A, ids=B)
+    # numeric summaries of the degree / edge-size statistics
+    for k, stat in enumerate((H.nodes.degree, H.edges.size)):
+        def f(stat=stat):
+            u, c = stat.unique(return_counts=True)
+            sd = float(stat.std())
+            return [frac(stat.median()), [int(stat.mode())], frac(stat.var()), frac(stat.moment(2)), frac(stat.moment(3)),
+                    frac(stat.moment(2, center=True)), frac(stat.moment(3, center=True)), [int(x) for x in u], [int(x) for x in c],
+                    frac(sd * sd)]
+        if len(stat):
+            r, res = _do(f)
+            add("stat_summaries", res, r, st=st, k=k)
     # parametrised global measures
     for fn in ("density", "incidence_density"):
         for k in (NONE, 0, 1, 2, 3, 4):
